@@ -114,8 +114,46 @@ fn history(ctx: &mut Ctx, rng: &mut Rng, base: &Engine, rv: &RefVoice, descr: &s
     let mut vol_before = e.condition.get_volume();
     let len = rng.range(1, 40);
     let mut calls: Vec<String> = Vec::new();
+    // copies of the engine that stay alive while the original is modified (and vice versa)
+    let mut alive: Vec<(Engine, Model)> = Vec::new();
     for _ in 0..len {
-        let which = rng.below(10);
+        let which = rng.below(12);
+        if which == 10 {
+            // Condition::load_model again: the per-stream settings, rate and frame period go back to the defaults
+            let voices = e.voices.clone();
+            if e.condition.load_model(&voices).is_err() {
+                ctx.violation("load_model-err", J::from(descr));
+                return;
+            }
+            model.rate = rv.sampling_frequency;
+            model.fperiod = rv.frame_period;
+            model.thr = vec![0.5; n];
+            model.gvw = vec![1.0; n];
+            if let Some(a) = rv.streams[0].options.iter().find_map(|o| o.strip_prefix("ALPHA=").and_then(|s| s.parse::<f64>().ok())) {
+                model.alpha = a;
+            }
+            calls.push("load_model(voices)".into());
+            let (got, _) = observe(&e, n);
+            if got != model {
+                ctx.violation(
+                    "load_model-on-a-used-condition-does-not-restore-the-defaults",
+                    J::obj().set("voice", descr).set("calls", J::from(calls.clone())).set("observed", format!("{:?}", got)).set("expected", format!("{:?}", model)),
+                );
+                return;
+            }
+            continue;
+        }
+        if which == 11 {
+            // keep a clone alive; sometimes continue on the clone instead
+            let c = e.clone();
+            if rng.chance(0.5) {
+                alive.push((c, model.clone()));
+            } else {
+                alive.push((std::mem::replace(&mut e, c), model.clone()));
+            }
+            calls.push("clone (kept alive)".into());
+            continue;
+        }
         let i = rng.below(n);
         let x = farg(rng);
         let u = uarg(rng);
@@ -183,6 +221,16 @@ fn history(ctx: &mut Ctx, rng: &mut Rng, base: &Engine, rv: &RefVoice, descr: &s
                 J::obj().set("voice", descr).set("calls", J::from(calls.clone())).set("observed", format!("{:?}", got)).set("expected", format!("{:?}", model)),
             );
             return;
+        }
+        for (k, (c, m)) in alive.iter().enumerate() {
+            let (g, _) = observe(c, n);
+            if g != *m {
+                ctx.violation(
+                    "setter-on-one-engine-changed-a-live-clone",
+                    J::obj().set("voice", descr).set("calls", J::from(calls.clone())).set("clone", k).set("observed", format!("{:?}", g)).set("expected", format!("{:?}", m)),
+                );
+                return;
+            }
         }
         if !volume_set && vol.to_bits() != vol_before.to_bits() {
             ctx.violation("setter-changed-volume", J::obj().set("calls", J::from(calls.clone())).set("before", vol_before).set("after", vol));
